@@ -26,6 +26,14 @@ def similar_tokens():
                          {"op": closing, "token": first, "amount": [1]}, {"op": closing, "token": second, "amount": [1]}]
                 out.append({"config": {"max": 2}, "term": {"next_receipt": 7}, "calls": calls, "plan": {"exchanges": [], "default": ok}})
                 out.append({"config": {"max": 1}, "term": {"next_receipt": 7}, "calls": calls, "plan": {"exchanges": [], "default": ok}})
+    # a commit of exactly 0 closes the token like any other; a reservation may get receipt number 0
+    for amt in ([], [0], [1]):
+        for r0 in (0, 1):
+            calls = [{"op": "begin", "token": [65], "amount": []}, {"op": "commit", "token": [65], "amount": amt}, {"op": "commit", "token": [65], "amount": amt},
+                     {"op": "cancel", "token": [65], "amount": []}, {"op": "begin", "token": [65], "amount": []}, {"op": "cancel", "token": [65], "amount": []}]
+            for mx in (1, 2):
+                out.append({"config": {"max": mx}, "term": {"next_receipt": 5}, "calls": calls,
+                            "plan": {"exchanges": [dict(ok, receipt=r0)], "default": ok}})
     # the terminal issues the same receipt number twice: both tokens are open, each closes on its own
     for r in (7, 9999):
         for closing in ("commit", "cancel"):
